@@ -98,6 +98,15 @@ def main():
         if os.path.isdir(cdir):
             for d in set(os.listdir(cdir)) - caches_before:
                 shutil.rmtree(os.path.join(cdir, d), ignore_errors=True)
+    if args.skip_tests:
+        try:
+            with open(os.path.join(sd, "result.json")) as f:
+                old = json.load(f)
+            for k_ in ("tests_exit", "tests_tail", "tests_wall_s"):
+                if k_ in old:
+                    res[k_] = old[k_]
+        except Exception:
+            pass
     with open(os.path.join(sd, "result.json"), "w") as f:
         json.dump(res, f, indent=1, sort_keys=True)
     print(json.dumps(res, indent=1, sort_keys=True))
